@@ -138,6 +138,42 @@ func genGraph(r *rand.Rand, flaw string) gDef {
 		d.Deps = append(d.Deps, gType{names[i], fieldsOf[i]})
 	}
 	switch flaw {
+	case "twins":
+		// the same short type name in two packages, each referenced package-relatively from a holder type of its own
+		// package (and, every other time, also package-relatively from the top-level type, whose package has a third one):
+		// every reference must resolve in the package context of the type that contains it
+		short := []string{"Point", "Status", "Inner"}[r.Intn(3)]
+		pa, pb := "nav_a", "nav_b"
+		body := func(k int) []gField {
+			var out []gField
+			for j := 0; j <= k; j++ {
+				out = append(out, gField{Name: fmt.Sprintf("v%d_%d", k, j), Written: rosPrims[(3*k+j)%len(rosPrims)], Base: rosPrims[(3*k+j)%len(rosPrims)], Arr: "scalar"})
+			}
+			return out
+		}
+		rel := func(name string, arr string) gField {
+			f := gField{Name: name, Base: short, Arr: arr, Written: short}
+			if arr == "var" {
+				f.Written = short + "[]"
+			}
+			return f
+		}
+		holderA := gType{pa + "/HolderA", []gField{rel("first", "scalar"), {Name: "n", Written: "int32", Base: "int32", Arr: "scalar"}}}
+		holderB := gType{pb + "/HolderB", []gField{{Name: "m", Written: "string", Base: "string", Arr: "scalar"}, rel("items", "var")}}
+		qual := func(name, full string) gField {
+			return gField{Name: name, Written: full, Base: full, Arr: "scalar", Qualified: true, BPkg: strings.SplitN(full, "/", 2)[0]}
+		}
+		tops := []gField{qual("ha", holderA.Name), qual("hb", holderB.Name)}
+		deps := []gType{holderA, holderB, {pa + "/" + short, body(0)}, {pb + "/" + short, body(2)}}
+		if r.Intn(2) == 0 {
+			tops = append([]gField{rel("mine", "scalar")}, tops...)
+			deps = append(deps, gType{"pkg/" + short, body(1)})
+		}
+		if r.Intn(2) == 0 { // the order of the MSG: sections must not matter either
+			deps[2], deps[3] = deps[3], deps[2]
+		}
+		d.Top = append(d.Top, tops...)
+		d.Deps = append(d.Deps, deps...)
 	case "missing":
 		d.Top = append(d.Top, gField{Name: "zz", Written: "Nowhere", Base: "Nowhere", Arr: "scalar"})
 	case "missing-qualified":
@@ -306,6 +342,8 @@ func mrun(args []string) error {
 		flaw := ""
 		if i%10 == 9 {
 			flaw = []string{"missing", "missing-qualified"}[r.Intn(2)] // cycles would crash an unfixed parser in-process: they go to the workers
+		} else if i%5 == 3 {
+			flaw = "twins" // not a flaw: one short name defined in two (or three) packages
 		}
 		d := genGraph(r, flaw)
 		text := renderDef(r, d)
